@@ -88,20 +88,33 @@ func Repr(v any, indent int) string {
 
 func reprMap(it hashmap.Iterator, n, indent int) string {
 	builder := NewMapReprBuilder(indent)
-	// Collect all the key-value pairs.
-	pairs := make([][2]any, 0, n)
+	// Collect all the key-value pairs, along with the representation of the
+	// keys.
+	type pair struct {
+		k, v  any
+		kRepr string
+	}
+	pairs := make([]pair, 0, n)
 	for ; it.HasElem(); it.Next() {
 		k, v := it.Elem()
-		pairs = append(pairs, [2]any{k, v})
+		pairs = append(pairs, pair{k, v, Repr(k, indent+1)})
 	}
 	// Sort the pairs. See the godoc of CmpTotal for the sorting algorithm.
+	//
+	// CmpTotal considers some distinct keys equal, like (num 0) and (num 0.0),
+	// or any two maps. Break such ties using the representation of the keys,
+	// so that the result only depends on the content of the map. Without this,
+	// the order of such keys is the iteration order of the map, which depends
+	// on the insertion order when the hashes of the keys collide.
 	sort.Slice(pairs, func(i, j int) bool {
-		return CmpTotal(pairs[i][0], pairs[j][0]) == CmpLess
+		if o := CmpTotal(pairs[i].k, pairs[j].k); o != CmpEqual {
+			return o == CmpLess
+		}
+		return pairs[i].kRepr < pairs[j].kRepr
 	})
 	// Print the pairs.
 	for _, pair := range pairs {
-		k, v := pair[0], pair[1]
-		builder.WritePair(Repr(k, indent+1), indent+2, Repr(v, indent+2))
+		builder.WritePair(pair.kRepr, indent+2, Repr(pair.v, indent+2))
 	}
 	return builder.String()
 }
